@@ -123,6 +123,7 @@ impl Engine {
                         failure_persistence: None,
                         rng_seed: RngSeed::Fixed(fnv64(seedsrc.as_bytes())),
                         max_shrink_iters: 200,
+                        max_shrink_time: 90_000,
                         max_global_rejects: 100_000,
                         verbose: 0,
                         ..Config::default()
